@@ -47,7 +47,11 @@ type AssertResult struct {
 	Label  string
 	Status string // "unsat" (discharged), "folded" (constant true), "sat", "unknown", "concrete-false"
 	Model  Model
+	Extra  []Model // further, diversified counterexamples of the same obligation (for native confirmation)
 }
+
+// ExtraModels: how many additional diversified models to extract per failing obligation.
+var ExtraModels = 6
 
 type observation struct {
 	label string
@@ -377,12 +381,44 @@ func (ps *pathState) assertProp(label string, cv value) {
 		m, ok := ps.sol.GetValues(ps.vars)
 		if ok {
 			res.Model = m
+			res.Extra = ps.diverseModels()
 		} else {
 			res.Status = "error"
 		}
 	}
 	ps.sol.Send("(pop)")
 	ps.asserts = append(ps.asserts, res)
+}
+
+// diverseModels extracts further models of the current (satisfiable) solver
+// state, each under one extra constraint fixing a bit of an input variable.
+func (ps *pathState) diverseModels() []Model {
+	var out []Model
+	var bv []varDecl
+	for _, v := range ps.vars {
+		if v.w > 1 {
+			bv = append(bv, v)
+		}
+	}
+	if len(bv) == 0 {
+		return nil
+	}
+	for j := 0; j < ExtraModels; j++ {
+		v := bv[(j*7+3)%len(bv)]
+		bit := (j*13 + 5) % v.w
+		if v.w > 20 {
+			bit = (j*5 + 11) % 20 // low bits: keeps range assumptions satisfiable
+		}
+		ps.sol.Send("(push)")
+		ps.sol.Send(fmt.Sprintf("(assert (= ((_ extract %d %d) %s) #b%d))", bit, bit, v.name, j&1))
+		if ps.sol.Check() == "sat" {
+			if m, ok := ps.sol.GetValues(ps.vars); ok {
+				out = append(out, m)
+			}
+		}
+		ps.sol.Send("(pop)")
+	}
+	return out
 }
 
 func (ps *pathState) assume(cv value) {
